@@ -42,7 +42,8 @@ CHECKS = {
  'C05': dict(
     text='Theorems (Coq): ~s / #s / alias / scoped and grouped references denote the concatenated full name; a missing signal raises; in-scope, in-group, in-scopes, all-scopes '
          'run the body with scope/group set and restore both on completion (also through the balanced-context theorem for the whole evaluator). '
-         'PARTIAL: that the regular expression in `groups` computes the prefix/suffix relation is decided by the differential check against a brute-force oracle.' + DIFF,
+         '(groups s0 s1 ..) returns, ascending and without duplicates, exactly the admissible prefixes p (no line break when no scope is captured; S. plus text without dot or backslash otherwise) such that p+s0 is a signal and every p+si exists, suffixes as literal text (GroupsProofs.v). '
+         'PARTIAL: that the regular expression in `groups` computes this prefix/suffix relation is decided by the differential check against a brute-force oracle.' + DIFF,
     technique='Coq proof (name denotation lemmas, restore lemmas) + differential correspondence + brute-force group oracle'),
  'C06': dict(
     text='Theorems (Coq, all frame heaps): lookup finds the innermost binding and skips non-binding frames; define/set/let/fn obey the environment model; a closure call '
@@ -107,7 +108,7 @@ CHECKS = {
     text='Theorems (Coq): first/second/last/rest/length/zip/list/+ on lists/slice/range compute head, tail, length, combine, concatenation, firstn/skipn after clamping, '
          'the integer interval; arrays are a finite map with textual keys in insertion order after any seta/dela sequence; geta present-or-error; map and fold (MapFold.v, any sub-evaluator): '
          'if applying the operator/function to an element yields g el with state effect h el, (map f l) is List.map g of the elements in order with the effects composed left to right, '
-         '(fold f a l) is fold_left g; with the real evaluator (fold + a l)/(fold * a l) over integers are the sum/product. PARTIAL: the std.wal functions defined by recursion (filter/'
+         '(fold f a l) is fold_left g; with the real evaluator (fold + a l)/(fold * a l) over integers are the sum/product; in is membership, max/min return an element that bounds all others, + of two lists is append (ListOps.v). PARTIAL: the std.wal functions defined by recursion (filter/'
          'reverse/sort/partition) and immutability of reachable lists are decided by the differential check against Python sequence operations.' + DIFF,
     technique='Coq proof (list operator equations, map/fold as List.map/fold_left, finite-map laws) + differential correspondence + Python sequence oracle'),
  'C15': dict(
@@ -123,7 +124,7 @@ CHECKS = {
     technique='Coq proof (resolve idempotence, pipeline equality on pass fixed points) + subprocess path comparison + differential correspondence'),
  'C17': dict(
     text='Theorems (Coq, induction over the whole evaluator, one lemma per operator): every completed evaluation leaves the current frame, scope, group and index stack as they '
-         'were and only extends the frame heap; the API entry (Wal.eval with keyword arguments) restores shadowed globals; Wal.run starts from a fresh state.' + DIFF,
+         'were and only extends the frame heap; the API entry (Wal.eval with keyword arguments) restores shadowed globals: a keyword binding of an existing global is written, the evaluation proper runs in that state, and the old value is read again afterwards whatever the evaluation did; a fresh name is appended and removed (KwProofs.v; that no second binding of a fresh name remains is stated under distinct keys of the global frame); Wal.run starts from a fresh state.' + DIFF,
     technique='Coq proof (balanced-context invariant by induction on evaluator fuel) + differential correspondence'),
  'C18': dict(
     text='Theorems (Coq): time cell with 0..9 fractional digits -> integer ns exactly, for numerals of any length (csv_time); decimal value inverts the numeral printer; '
